@@ -30,7 +30,7 @@ def generate(rng, tier, focus):
         seeds.append(spec)
     n_ops = rng.randint(6, 40) if not big else rng.randint(6, 14)
     ops = []
-    kinds = ["copy", "copy", "deep_copy", "move", "move", "move_to", "rotate", "rotate", "set_pos", "set_vel", "set_ids",
+    kinds = ["refused", "copy", "copy", "deep_copy", "move", "move", "move_to", "rotate", "rotate", "set_pos", "set_vel", "set_ids",
              "set_resids", "set_names", "view", "view_assign", "view_assign", "system", "alignment", "atom_copy",
              "residue_copy", "atoms_list", "read_centre", "read_centre", "move_to_partial", "move_axis"]
     for _ in range(n_ops):
@@ -51,6 +51,8 @@ def generate(rng, tier, focus):
             op["d"] = d
         elif k == "rotate":
             op["R"] = gen.random_rotation(rng).tolist()
+        elif k == "refused":
+            op["what"] = rng.choice(["rotate_2x2", "rotate_3x2", "move_len2", "set_pos_wrong_shape", "set_vel_wrong_shape"])
         elif k == "set_vel":
             op["none"] = rng.random() < 0.3
         elif k == "set_resids":
@@ -297,6 +299,33 @@ def execute(trace, ctx):
                         D1 = np.linalg.norm(got[:, None] - got[None, :], axis=-1)
                         if np.max(np.abs(D0 - D1)) > 1e-9 * max(1.0, float(np.max(D0))):
                             ctx.violate(P, "shape", f"{kind} changed interatomic distances")
+            elif kind == "refused":
+                # an operation the object must refuse (arguments of the wrong shape): whatever it raises, nothing may have
+                # changed, and the operations that follow behave as if it had never been tried
+                k = bodies[op["pick"] % len(bodies)]
+                o = M.objs[k]
+                n_ = len(o["cells"])
+                try:
+                    if op["what"] == "rotate_2x2":
+                        o["obj"].rotate(np.array([[0.0, -1.0], [1.0, 0.0]]))
+                    elif op["what"] == "rotate_3x2":
+                        o["obj"].rotate(np.ones((3, 2)))
+                    elif op["what"] == "move_len2":
+                        o["obj"].move(np.array([0.5, -0.5]))
+                    elif op["what"] == "set_pos_wrong_shape":
+                        o["obj"].atoms_positions = np.zeros((n_ + 1, 3))
+                    else:
+                        o["obj"].atoms_velocities = np.zeros((n_, 2))
+                except Exception:
+                    ctx.fault("refused_operation:" + op["what"])
+                    ctx.op(kind, op["what"])
+                    verify(ctx, M, set(), None, "refused " + op["what"], force=True)
+                else:
+                    # accepted: what such a call means is not specified; the object is no longer followed
+                    ctx.probe("malformed_operation_accepted")
+                    ctx.op(kind, op["what"] + ":accepted")
+                    ctx.nontrivial = True
+                    return
             elif kind == "read_centre":
                 # a pure observation (as user code does between operations); must agree with the model and change nothing
                 k = bodies[op["pick"] % len(bodies)]
